@@ -38,6 +38,9 @@
 
 class BW_MidiSequencer
 {
+#ifdef OPNMIDI_VERIF
+    friend struct OpnVerifAccess;
+#endif
     /**
      * @brief MIDI Event utility container
      */
